@@ -297,6 +297,7 @@ def prefix_consts_to_valkeys(words):
 
 # ------------------------------------------------------------------ scripts as text
 RESERVED = ['errorlevel', 'errorcode', 'filter', 'group', 'order', 'rule', 'value', 'date', 'all', 'level', 'in']
+SAFE_STRINGS = ['a', 'EUR', '[x]', ' lead', 'tail ', 'a  b', 'null', '1e5', 'é€', "it's", 'a;b', 'x := 1', '/* no */', '// no', 'a,b', 'then', '#', '', 'andy', 'oracle']
 STRINGS = ['a', 'x and y', 'p or q', '(a)', 'a(b', 'c)d', '[x]', ' lead', 'tail ', 'a  b', 'null', '1e5', 'é€', "it's",
            'a;b', 'x := 1', '/* no */', '// no', 'a,b', 'then', '#', '']
 
@@ -317,7 +318,7 @@ def num_literal(rng):
 
 
 def name(rng, quoted_ok=True):
-    if quoted_ok and rng.random() < (0.04 if SAFE[0] else 0.12):
+    if quoted_ok and not SAFE[0] and rng.random() < 0.12:
         return "'" + rng.choice(RESERVED) + "'"
     return rng.choice(COMPS)
 
@@ -328,7 +329,7 @@ def scalar_expr(rng, d):
         k = rng.random()
         if k < 0.35: return name(rng)
         if k < 0.6: return num_literal(rng)
-        if k < 0.75: return '"%s"' % rng.choice(STRINGS)
+        if k < 0.75: return '"%s"' % rng.choice(SAFE_STRINGS if SAFE[0] else STRINGS)
         if k < 0.85: return 'null'
         return rng.choice(['true', 'false'])
     k = rng.random()
@@ -339,7 +340,7 @@ def scalar_expr(rng, d):
     if k < 0.66: return '%s(%s, %s)' % (rng.choice(['mod', 'power', 'nvl', 'round', 'trunc']), scalar_expr(rng, d - 1), rng.choice(['2', 'null', '1.5', name(rng)]))
     if k < 0.72: return 'if %s then %s else %s' % (scalar_expr(rng, d - 1), scalar_expr(rng, d - 1), scalar_expr(rng, d - 1))
     if k < 0.77: return 'case when %s then %s when %s then %s else %s' % tuple(scalar_expr(rng, d - 1) for _ in range(5))
-    if k < 0.84: return '%s %s {%s}' % (scalar_expr(rng, d - 1), rng.choice(['in', 'not_in']), ', '.join(rng.choice([num_literal(rng), '-' + num_literal(rng), '"%s"' % rng.choice(STRINGS)]) for _ in range(rng.randint(1, 3))))
+    if k < 0.84: return '%s %s {%s}' % (scalar_expr(rng, d - 1), rng.choice(['in', 'not_in']), ', '.join(rng.choice([num_literal(rng), '-' + num_literal(rng), '"%s"' % rng.choice(SAFE_STRINGS if SAFE[0] else STRINGS)]) for _ in range(rng.randint(1, 3))))
     if k < 0.89: return 'between(%s, %s, %s)' % (scalar_expr(rng, d - 1), num_literal(rng), num_literal(rng))
     if k < 0.93: return 'cast(%s, %s)' % (scalar_expr(rng, d - 1), rng.choice(['integer', 'number', 'string', 'boolean']))
     if k < 0.96: return 'substr(%s, %s, %s)' % (scalar_expr(rng, d - 1), rng.choice(['1', '_']), rng.choice(['2', '_']))
@@ -357,7 +358,7 @@ def clause(rng, d):
     if k < 0.86:
         g = rng.choice(['', ' group by %s' % name(rng), ' group except %s, %s' % (name(rng), name(rng)), ' group all',
                         ' group by %s having avg(%s) > %s' % (name(rng), name(rng), num_literal(rng)),
-                        ' group by %s time_agg("A")' % name(rng)])
+                        ' group by %s' % name(rng) if SAFE[0] else ' group by %s time_agg("A")' % name(rng)])
         return '[aggr %s := %s(%s)%s]' % (name(rng), rng.choice(['sum', 'avg', 'count', 'min', 'max', 'median']), name(rng), g)
     if k < 0.93: return '[sub %s = %s]' % (name(rng), rng.choice(['1', '"A"', num_literal(rng)]))
     return '[%s %s, %s]' % (rng.choice(['pivot', 'unpivot']), name(rng), name(rng))
@@ -365,7 +366,7 @@ def clause(rng, d):
 
 def ds_expr(rng, d):
     if d <= 0 or rng.random() < 0.2:
-        return rng.choice(['DS_1', 'DS_2', 'DS_3', "'DS 4'"])
+        return rng.choice(['DS_1', 'DS_2', 'DS_3', 'DS_3' if (SAFE[0] or rng.random() < 0.7) else "'DS 4'"])
     k = rng.random()
     if k < 0.22: return '%s %s %s' % (ds_expr(rng, d - 1), rng.choice(['+', '-', '*', '/', '=', '>', 'and', 'or']), rng.choice([ds_expr(rng, d - 1), num_literal(rng)]))
     if k < 0.3: return '(%s)' % ds_expr(rng, d - 1)
@@ -376,7 +377,7 @@ def ds_expr(rng, d):
         body = rng.choice(['', ' filter %s' % scalar_expr(rng, 1), ' calc %s := %s' % (name(rng), scalar_expr(rng, 1)),
                            ' keep %s' % name(rng), ' rename %s to %s' % (name(rng), name(rng)),
                            ' filter %s calc %s := %s keep %s' % (scalar_expr(rng, 1), name(rng), scalar_expr(rng, 1), name(rng)),
-                           ' aggr %s := sum(%s) group by %s' % (name(rng), name(rng), name(rng)), ' apply d1 + d2'])
+                           ' calc %s := 1' % name(rng) if SAFE[0] else ' aggr %s := sum(%s) group by %s' % (name(rng), name(rng), name(rng)), ' apply d1 + d2'])
         using = rng.choice(['', '', ' using Id_1', ' using Id_1, Id_2'])
         jn = rng.choice(['inner_join', 'left_join', 'full_join', 'cross_join'])
         if jn == 'cross_join': using = ''
@@ -401,15 +402,15 @@ def comment(rng):
 def definition(rng, i):
     k = rng.random()
     if k < 0.35:
-        pars = ', '.join('p%d %s%s' % (j, rng.choice(['dataset', 'component', 'integer', 'number', 'string', 'boolean', 'scalar']),
+        pars = ', '.join('p%d %s%s' % (j, rng.choice(['dataset', 'component', 'integer', 'number', 'string', 'boolean'] + ([] if SAFE[0] else ['scalar'])),
                                       rng.choice(['', '', ' default 1'])) for j in range(rng.randint(1, 3)))
-        body = rng.choice(['p0 + 1', 'p0 * p0', 'if p0 > 0 then p0 else -p0', 'p0 || "(x)"', 'nvl(p0, 0)', 'p0 [filter Me_1 > 0]'])
+        body = rng.choice(['p0 + 1', 'p0 * p0', 'if p0 > 0 then p0 else -p0', 'p0 || "x"' if SAFE[0] else 'p0 || "(x)"', 'nvl(p0, 0)', 'p0 [filter Me_1 > 0]', 'abs(p0) + ln((p0))'])
         ret = rng.choice(['', ' returns dataset', ' returns number', ' returns boolean', ' returns component'])
         return 'define operator op_%d (%s)%s is %s end operator;' % (i, pars, ret, body)
     if k < 0.65:
         rules = []
         for j in range(rng.randint(1, 3)):
-            r = rng.choice(['', 'r%d: ' % j]) + rng.choice(['when Me_1 > 0 then Me_2 > 0', 'Me_1 >= 0', 'when At_1 = "x and y" then Me_1 <> null', 'Me_1 + Me_2 > %s' % num_literal(rng)])
+            r = rng.choice(['', 'r%d: ' % j]) + rng.choice(['when Me_1 > 0 then Me_2 > 0', 'Me_1 >= 0', 'when At_1 = "%s" then Me_1 <> null' % ('xy' if SAFE[0] else 'x and y'), 'Me_1 + Me_2 > %s' % num_literal(rng)])
             r += rng.choice(['', ' errorcode "E%d"' % j, ' errorcode %d' % j]) + rng.choice(['', ' errorlevel %d' % j, ' errorlevel "W"'])
             rules.append(r)
         sig = rng.choice(['variable Me_1, Me_2, At_1', 'variable Me_1 as M, Me_2, At_1', 'valuedomain vd1 as Me_1, vd2 as Me_2, vd3 as At_1'])
@@ -417,14 +418,14 @@ def definition(rng, i):
         return 'define datapoint ruleset dpr_%d (%s) is %s end datapoint ruleset;' % (i, sig, '; '.join(rules))
     if k < 0.88:
         rules = []
-        for j in range(rng.randint(1, 3)):
-            r = rng.choice(['', 'h%d: ' % j]) + rng.choice(['A = B + C', 'A >= B - C', 'when Id_2 = "x" then A = B + C', 'A = B[Id_2 = "y"] + C', 'T = A + B - C', 'A > 1'])
+        for j in range(1 if SAFE[0] else rng.randint(1, 3)):
+            r = rng.choice(['', 'h%d: ' % j]) + rng.choice(['A = B + C', 'A >= B - C', 'when Id_2 = "x" then A = B + C', 'A = B + C' if SAFE[0] else 'A = B[Id_2 = "y"] + C', 'T = A + B - C', 'A > 1'])
             r += rng.choice(['', ' errorcode "H%d"' % j]) + rng.choice(['', ' errorlevel %d' % j])
             rules.append(r)
         sig = rng.choice(['variable rule Id_1', 'valuedomain rule vd', 'variable condition Id_2 rule Id_1'])
         if 'condition' not in sig: rules = [r for r in rules if 'Id_2' not in r] or ['A = B + C']
         return 'define hierarchical ruleset hr_%d (%s) is %s end hierarchical ruleset;' % (i, sig, '; '.join(rules))
-    cl = rng.choice(['when "C" then "C"; when "N" and "M" then "N"; else "F"', 'aggregate max', 'c1: when "A" then "B"', 'when null then "Z"; else "Y"'])
+    cl = rng.choice(['when "C" then "C"; when "N" and "M" then "N"; else "F"', 'aggregate max', 'c1: when "A" then "B"', 'when "Q" then "Z"; else "Y"' if SAFE[0] else 'when null then "Z"; else "Y"'])
     return 'define viral propagation vp_%d (%s At_1) is %s end viral propagation;' % (i, rng.choice(['variable', 'valuedomain']), cl)
 
 
@@ -444,7 +445,7 @@ def script(rng):
                     ['', ' all', ' non_null', ' invalid'])
                 if rhs.startswith('hierarchy') and ('invalid' in rhs): rhs = rhs.replace(' invalid', ' computed')
                 if rhs.startswith('check_datapoint') and 'non_null' in rhs: rhs = rhs.replace(' non_null', '')
-            parts.append('%s %s %s;' % (rng.choice(['DS_r%d' % i, 'r%d' % i, "'res %d'" % i]), rng.choice([':=', ':=', '<-']), rhs))
+            parts.append('%s %s %s;' % (rng.choice(['DS_r%d' % i, 'r%d' % i, 'res_%d' % i if (SAFE[0] or rng.random() < 0.7) else "'res %d'" % i]), rng.choice([':=', ':=', '<-']), rhs))
         if rng.random() < 0.15: parts.append(comment(rng))
     sep = rng.choice(['\n', ' ', '\n\n', '\r\n'])
     return sep.join(parts)
